@@ -1,10 +1,10 @@
 (* C05  Every feasible project completes, and the reported status is truthful.
-   Statements only; proofs in Proofs/C05Proof.v.
-   PARTIAL: the liveness clause (feasible projects complete within the work
-   bound) is not proved yet; it is searched by the oracle (harness/oracles.py
-   feasible / c05_liveness). *)
-From Coq Require Import List ZArith QArith Bool Arith.
-From PV Require Import Model.Types Model.Sim Model.Example Proofs.Base Proofs.RunLemmas Proofs.C01Proof Proofs.C05Proof.
+   Statements only; proofs in Proofs/C05Proof.v, Proofs/C05Live.v.
+   PARTIAL: the liveness clause is proved for the class of C05_feasible_projects_complete
+   (no facilities / components, FS and SS links); beyond that class it is
+   searched by the oracle (harness/oracles.py feasible / c05_liveness). *)
+From Coq Require Import List ZArith QArith Bool Arith Lia Lqa.
+From PV Require Import Model.Types Model.Sim Model.Example Proofs.Base Proofs.RunLemmas Proofs.C01Proof Proofs.C05Proof Proofs.C05Live.
 Import ListNotations.
 Open Scope nat_scope.
 
@@ -38,6 +38,62 @@ Theorem C05_unservable_task : forall c o, NoDup (all_workers c) -> forall s t,
             (snd (simulate c o s)).
 Proof. intros c o H. exact (C05_unservable_never_succeeds c o H). Qed.
 Print Assumptions C05_unservable_task.
+
+(* liveness: every project of the following class completes.
+     - the network is acyclic (rank decreases along every input edge, ids in
+       range) and has finish-to-start and start-to-start links only;
+     - no task needs a facility or is bound to a component;
+     - every non-automatic task has a worker with a positive skill for it, in
+       one of its teams and (when worker ids are fixed) among the fixed ids;
+     - delta > 0 bounds every positive skill and every automatic rate from
+       below; work amounts are >= 0, default progress in [0, 1];
+     - every project-wide and every individual absence step is < H.
+   Then a freshly initialised run reports FINISHED_SUCCESS whenever
+     max_time >= H + sum over tasks of (1 + ceil(work x (1 - progress) / delta)),
+   for EVERY task priority rule, worker priority rule, team structure, solo
+   flags, absence pattern below H and order of the task list.  (The proof: a
+   natural-number measure over the unfinished tasks never grows and drops in
+   every step after H, because the unfinished task of least rank is READY or
+   WORKING and either it or the task that occupies its eligible worker makes
+   progress >= delta; C06_no_idle_eligible_worker rules out that the worker
+   stays idle.) *)
+Theorem C05_feasible_projects_complete : forall c o rank delta H,
+  (forall w, In w (all_workers c) -> w < nW c) -> NoDup (all_workers c) ->
+  (forall p f, In f (wp_facs c p) -> f < nF c) ->
+  (forall t e, t < nT c -> In e (t_inputs c t) -> fst e < nT c /\ rank (fst e) < rank t) ->
+  (forall t e, In e (t_inputs c t) -> snd e = FS \/ snd e = SS) ->
+  (forall t, t < nT c -> t_needfac c t = false /\ t_comp c t = None) ->
+  (forall t, t < nT c -> t_auto c t = false ->
+     exists w, In w (all_workers c) /\ has_wskill c w t = true /\ w_targets c w t = true
+               /\ (forall l, t_fixw c t = Some l -> mem w l = true)) ->
+  (0 < delta)%Q ->
+  (forall w t, has_wskill c w t = true -> (delta <= skill_val (w_skill c w t))%Q) ->
+  (forall w t, (0 <= skill_val (w_skill c w t))%Q) ->
+  (forall t, t < nT c -> t_auto c t = true -> (delta <= t_rate c t)%Q) ->
+  (forall t, t < nT c -> (0 <= t_work c t)%Q /\ (0 <= t_progress c t <= 1)%Q) ->
+  (forall a, In a (o_abs o) -> a < H) -> (forall w a, In a (w_abs c w) -> a < H) ->
+  forall s, o_init_state o = true -> o_init_log o = true ->
+  H + work_bound c delta <= o_max_time o ->
+  status (fst (simulate c o s)) = StSuccess.
+Proof.
+  intros c o rank delta H A1 A2 A3 A4 A5 A6 A7 A8 A9 A10 A11 A12 A13 A14 s.
+  exact (feasible_projects_complete c o rank delta H A1 A2 A3 A4 A5 A6 A7 A8 A9 A10 A11 A12 A13 A14 s).
+Qed.
+Print Assumptions C05_feasible_projects_complete.
+
+(* non-vacuity: the finish-to-start diamond (two workers, unit skills) is in
+   the class with delta = 1, H = 0; its work bound is 11 *)
+Example C05_live_example :
+  work_bound ex_fs_cfg 1 = 11 /\ status (fst (simulate ex_fs_cfg ex_fs_opts (blank ex_fs_cfg))) = StSuccess
+  /\ (forall t e, t < nT ex_fs_cfg -> In e (t_inputs ex_fs_cfg t) -> fst e < nT ex_fs_cfg /\ fst e < t)
+  /\ (forall t, t < nT ex_fs_cfg -> t_auto ex_fs_cfg t = false ->
+        exists w, In w (all_workers ex_fs_cfg) /\ has_wskill ex_fs_cfg w t = true /\ w_targets ex_fs_cfg w t = true
+                  /\ (forall l, t_fixw ex_fs_cfg t = Some l -> mem w l = true)).
+Proof.
+  split; [vm_compute; reflexivity|]. split; [vm_compute; reflexivity|]. split.
+  - intros t e Ht He. destruct t as [|[|[|[|t]]]]; cbn in *; try lia; intuition (subst; cbn; lia).
+  - intros t Ht _. exists 0. destruct t as [|[|[|[|t]]]]; cbn in Ht; try lia; (split; [left; reflexivity|]); repeat split; try reflexivity; intros l F; discriminate.
+Qed.
 
 Example C05_example : status ex_final = StSuccess /\ all_finished ex_cfg ex_final = true /\ recorded ex_trace = 6.
 Proof. vm_compute. repeat split. Qed.
